@@ -296,7 +296,11 @@ impl Report {
     /// `class` = "<site>/<kind>", computed from the failing trace, used to
     /// match `known_findings.jsonl`.
     pub fn violation(&mut self, class: &str, what: &str, input: Value) {
-        if self.violations.len() < 50 {
+        // at most 3 failing inputs are kept per class (and 400 in all), so that a class that fires
+        // on many inputs can never crowd a NEW class out of the report
+        let same = self.violations.iter().filter(|v| v["class"] == class).count();
+        self.hit(&format!("violations.{class}"));
+        if same < 3 && self.violations.len() < 400 {
             self.violations.push(json!({"class": class, "what": what, "input": input}));
         }
     }
